@@ -96,8 +96,8 @@ def modelParse (fmt : String) (o : POpts) (bs : List Byte) : Option PRes :=
     match Phylip.parseOne Gen.FmtFacts.phylip_allocates_from_header o { inp := Utf8.norm bs } with
     | .ok (.slow, _) => none      -- allocation of 2^27 … 2^44 entries: machine dependent, not compared
     | r => some (Phylip.toOutcome r)
-  | "stockholm" => (Stockholm.parseBytes Gen.FmtFacts.stockholm_markup_stops_at_eof
-      Gen.FmtFacts.stockholm_rejects_empty o bs).map liftOutcome
+  | "stockholm" => some (liftOutcome (Stockholm.parseBytes Gen.FmtFacts.stockholm_markup_stops_at_eof
+      Gen.FmtFacts.stockholm_rejects_empty o bs))
   | "clustal" => some (liftOutcome (Clustal.parseBytes Gen.FmtFacts.clustal_checks_row_index o bs))
   | "nexus" => (Nexus.parseBytes ⟨Gen.FmtFacts.nexus_comment_stops_at_eof,
       Gen.FmtFacts.nexus_rejects_negative_counts, Gen.FmtFacts.nexus_rejects_empty_rows,
